@@ -62,6 +62,9 @@ CHECKS = {
  "C03": dict(cat="exploration", technique="metamorphic runtime monitor over local vertex numberings of two physical cells sharing a facet (global-dof comparison), geometric determination of coincidence-making permutation codes, kernel-evaluated coincidence probe, oracle on samples, flag monitor",
    text="One compiled interior-facet kernel per (cell, form) is called for all / sampled pairs of local numberings (cell automorphisms) of two physical cells and all permutation code pairs that make the facet points coincide; results mapped to global dofs must equal the reference numbering; the kernel's own int|x+ - x-|^2 must vanish for those codes; sampled results must equal the oracle; kernels flagged needs_facet_permutations=false must not depend on the codes.",
    note="Exhaustive for interval/triangle/quadrilateral numbering pairs in both tiers, tetrahedron in thorough; hexahedron sampled. Convention agreement with DOLFINx is out of reach.", ref="3/C03"),
+ "C16": dict(cat="exploration", technique="text monitors: formatter output re-parsed with pycparser / Python ast and compared as canonical trees with the LNodes tree; compiled-C (UBSan) and evaluated-Python values vs a bounds-checked AST interpreter; literal round-trip",
+   text="Exhaustive (parent, child, position) triples over all expression node constructors (both formatters, real and complex), depth-3 trees, seeded random trees to depth 8, operator-overload-built trees, statement programs (declarations, sections, nested loops, multi-index stores) and thousands of double literals: every emitted text must parse back to the same tree, compute the interpreter's value, and literals must read back within 1 ulp.",
+   note="pycparser and CPython ast are the reference grammars. Exhaustive only over the triple space. Six formatter defects found and fixed.", ref="3/C16"),
 }
 NA_REASON = "check not built yet in this round (runtime monitoring applies; see DESIGN.md section 3)"
 
